@@ -45,7 +45,7 @@ def c06(ctx, replay):
         from props.stream import apalache
         apalache(ctx, "RingIdxAbs", inits=("Init", "InitRaw"))       # index arithmetic for ANY capacity, unbounded histories
         ctx.assumptions.append("Apalache inductive invariant of RingIdxAbs: slot arithmetic of Bounded/Fixed for any capacity and history length "
-                               "(one arbitrary element followed symbolically; set_first not part of the abstraction)")
+                               "(one arbitrary element followed symbolically, from any valid raw parts, through push / pop / set_first)")
     ctx.add_rejections(rej)
 
 
